@@ -13,7 +13,7 @@ vars == <<apiVars, osVars>>
 TraceInit == ApiInit /\ OsInit
 
 Consume == step' = step + 1
-ApiSame == UNCHANGED <<live, heaps, dflt, backing, flux, arenas, osfail, cfg, pcm>>
+ApiSame == UNCHANGED <<live, heaps, dflt, backing, flux, arenas, osfail, cfg, aux>>
 
 \* does this return hand a (written) block to the program?
 ReturnsBlock(ev) == /\ ev.t \in DOMAIN flux /\ flux[ev.t] # NoCall
@@ -30,9 +30,9 @@ TraceNext ==
        [] ev.e = "tstart" -> ThreadStart(ev) /\ OsSkip
        [] ev.e = "tdone" -> ThreadDone(ev) /\ OsSkip
        [] ev.e = "os" -> /\ Consume
-                         /\ OsEvent(ev, live)
+                         /\ OsEvent(ev, live, aux.groups)
                          /\ IF ~ev.ok THEN OsRefused ELSE IF ev.call = "mmap" THEN OsMapped(ev.t) ELSE UNCHANGED osfail
-                         /\ UNCHANGED <<live, heaps, dflt, backing, flux, arenas, cfg, pcm>>
+                         /\ UNCHANGED <<live, heaps, dflt, backing, flux, arenas, cfg, aux>>
        [] ev.e = "clock" -> Consume /\ OsClock(ev) /\ ApiSame
        [] ev.e = "areas" -> Consume /\ OsAreas(ev, live) /\ ApiSame
        [] ev.e = "mark" -> Consume /\ OsMark(ev, live) /\ ApiSame
@@ -40,17 +40,19 @@ TraceNext ==
        [] ev.e = "cfg" -> /\ Consume
                           /\ cfg' = ev
                           /\ OsCfg(ev)
-                          /\ UNCHANGED <<live, heaps, dflt, backing, flux, arenas, osfail, pcm>>
+                          /\ UNCHANGED <<live, heaps, dflt, backing, flux, arenas, osfail, aux>>
        [] ev.e = "crash" -> /\ Consume
                             /\ GD("NoCrash", ev.sig, FALSE)
                             /\ ApiSame /\ OsSkip
        [] ev.e = "reset" -> /\ Consume
                             /\ live' = <<>> /\ heaps' = (1 :> [t |-> 0, backing |-> TRUE, arena |-> 0, desc |-> 0])
                             /\ dflt' = (0 :> 1) /\ backing' = (0 :> 1) /\ flux' = (0 :> NoCall) /\ arenas' = <<>>
-                            /\ osfail' = (0 :> <<FALSE, FALSE>>) /\ pcm' = <<0, 0>> /\ UNCHANGED cfg
+                            /\ osfail' = (0 :> <<FALSE, FALSE>>) /\ aux' = [m |-> <<0, 0>>, groups |-> <<>>] /\ UNCHANGED cfg
                             /\ OsReset
        [] ev.e = "round" -> Round(ev) /\ OsSkip
        [] ev.e = "refill" -> Refill(ev) /\ OsSkip
+       [] ev.e = "batch" -> BatchAlloc(ev) /\ OsBatch(ev.blocks, ev.wr)
+       [] ev.e = "batch_free" -> BatchFree(ev) /\ OsSkip
        [] ev.e = "end" -> Consume /\ ApiSame /\ OsSkip
        [] OTHER -> FALSE
 
@@ -60,6 +62,10 @@ TraceSpec == TraceInit /\ [][TraceNext]_vars
 TraceAccepted ==
   /\ PrintT(<<"TVDIAMETER", TLCGet("stats").diameter - 1>>)
   /\ TLCGet("stats").diameter - 1 = Len(Tr)
+
+\* The behaviour reconstructed from a trace is a single path: the position identifies the state, so TLC fingerprints only the
+\* position (VIEW) instead of the whole reconstructed state (which can hold thousands of blocks).
+TraceView == <<step, ostep>>
 
 \* invariants evaluated in every state of the reconstructed behaviour
 Inv == LiveWellFormed /\ HeapsOK /\ BlocksHaveHeaps /\ MapsDisjoint
